@@ -30,3 +30,45 @@ Definition l_ok (c : lcase) : bool :=
 (* timeout: base (ns), view, observed duration (ns) *)
 Definition tcase := (Z * N * Z)%type.
 Definition t_ok (c : tcase) : bool := let '(b, v, o) := c in Z.eqb (calcTimeout b v) o.
+
+(* ---- registry / state (Contexts.v) ---- *)
+From LH Require Import Contexts.
+
+Fixpoint list_eqb {A} (eq : A -> A -> bool) (a b : list A) : bool :=
+  match a, b with [] , [] => true | x :: r, y :: s => eq x y && list_eqb eq r s | _, _ => false end.
+
+(* observation after each op: did For succeed (true for other ops); done flag of every context issued so far, in issue order *)
+Fixpoint reg_trace (r : registry) (ops : list rop) : list (bool * list bool) :=
+  match ops with
+  | [] => []
+  | o :: rest =>
+      let ok := match o with RFor k => fst (reg_for k r) | _ => true end in
+      let r' := reg_step r o in
+      (ok, map (ctx_done r') (rev (issued r'))) :: reg_trace r' rest
+  end.
+Definition rcase := (list rop * list (bool * list bool))%type.
+Definition r_ok (c : rcase) : bool :=
+  list_eqb (fun a b => Bool.eqb (fst a) (fst b) && list_eqb Bool.eqb (snd a) (snd b)) (reg_trace reg_init (fst c)) (snd c).
+
+(* State: observation after each op: (ok, height, view) *)
+Fixpoint st_trace (s : hvstate) (ops : list sop) : list (bool * N * N) :=
+  match ops with
+  | [] => []
+  | o :: rest =>
+      let res := match o with SSetHeight h => st_set_height h s | SSetView v => st_set_view v s end in
+      (fst res, st_h (snd res), st_v (snd res)) :: st_trace (snd res) rest
+  end.
+Definition scase := (list sop * list (bool * N * N))%type.
+Definition s_ok (c : scase) : bool := list_eqb eqb_triple (st_trace st_init (fst c)) (snd c).
+
+(* ---- filter (Filter.v) ---- *)
+From LH Require Import Filter.
+(* case: me, inst, ops, observed deliveries in order (handler term, tag) *)
+Definition fcase := (N * N * list fop * list (N * N))%type.
+Definition f_ok (c : fcase) : bool :=
+  let '(me, inst, ops, obs) := c in
+  let s := frun me inst ops in
+  negb (f_oof s) &&
+  list_eqb (fun a b => N.eqb (fst a) (fst b) && N.eqb (snd a) (snd b))
+           (map (fun d => (fst d, m_tag (snd d))) (rev (f_out s))) obs.
+Definition FM (h i s t : N) (tr : bool) : fmsg := {| m_height := h; m_inst := i; m_sender := s; m_tag := t; m_trigger := tr |}.
